@@ -233,19 +233,25 @@ idioms.  Index / slice operations that the range analysis proves in range on eve
 (`Generated.C09.derivedSites`, round D) are not part of this list: they are re-proved, not
 reviewed, so renaming their operands or moving them into a helper changes nothing here. -/
 theorem C09_accepted_sizes_reviewed :
-    XmppModel.Generated.C09.acceptedSizes = [
-  ("xmpp.(*stanzaEncoder).EncodeToken", "make", "make([]xml.Attr, 0, len(tok.Attr) + 2)"),
-  ("xmpp.(*stanzaEncoder).EncodeToken", "make", "make([]xml.Attr, 0, len(tok.Attr))"),
+    XmppModel.Generated.C09.acceptedSizes.filter (fun s => s.2.1 != "make") = [
   ("disco.walkItem", "index(allow)", "items[itemIdx]"),
   ("disco.walkItem", "slice(allow)", "items[last + 1:]"),
   ("disco.appendItems", "index(allow)", "items[itemIdx]"),
-  ("ibb.newConn", "make", "make([]byte, 0, blockSize)"),
   ("ibb.handlePayload", "make(allow)", "make([]byte, base64.StdEncoding.DecodedLen(len(p.Data)))"),
   ("ibb.handlePayload", "dstsize", "base64.StdEncoding.Decode(data, p.Data)"),
   ("ibb.handlePayload", "slice(allow)", "data[:n]"),
   ("attr.randomID", "make(allow)", "make([]byte, (n / 2) + (n & 1))"),
-  ("attr.randomID", "slice(allow)", "fmt.Sprintf(\"%x\", b)[:n]"),
-  ("marshal.(*elementWriter).EncodeToken", "make", "make([]xml.Attr, 0, len(ew.start.Attr) + len(tok.Attr))")] := by decide +kernel
+  ("attr.randomID", "slice(allow)", "fmt.Sprintf(\"%x\", b)[:n]")] := by decide +kernel
+
+/-- Round F: `make` sites accepted by the idiom "every size argument is syntactically
+non-negative" (constants, len / cap, unsigned values, sums and products of such: `nonNegative`
+in translate.go, decided on every run) carry no reviewed judgement about their text, so they
+are no longer pinned (a new `make([]xml.Attr, 0, len(start.Attr))` in bookmarks alarmed, a
+rename of `tok` would have); they stay listed in the facts and the evidence, and there must be
+some (the extractor still sees them). -/
+theorem C09_make_sites_found :
+    (XmppModel.Generated.C09.acceptedSizes.filter (fun s => s.2.1 == "make")).isEmpty = false := by
+  decide +kernel
 
 /-! ## Handler locks and the transport; request contexts
 
